@@ -241,13 +241,30 @@ func (p wprog) String() string {
 
 // runProg runs the program, continuing after errors, and returns every error
 // any Writer call returned, in order, and a rendering of everything read back.
-func runProg(w io.Writer, p wprog) (errs []error, readBack string, closeErr error) {
+func runProg(w io.Writer, p wprog) (errs []error, readBack string, closeErr error, strict []string) {
 	_, seekable := w.(io.ReadSeeker)
 	var rb strings.Builder
 	note := func(err error) {
 		if err != nil {
 			errs = append(errs, err)
 		}
+	}
+	// Writer.err in strict form: once a call that records (Put, WriteCompressed,
+	// the Write or Close of a stream: 'P', 'C', 'w', 'c') has returned an error
+	// carrying the sink's, every later Put, OpenStream, WriteCompressed and
+	// Close ('P', 'O', 'C', 'X') must return an error carrying it, too
+	sticky := false
+	ncall := 0
+	noteK := func(kind byte, err error) {
+		ncall++
+		if sticky && strings.IndexByte("POCX", kind) >= 0 && !errors.Is(err, errSink) {
+			strict = append(strict, fmt.Sprintf("call #%d (%s) returned %v", ncall,
+				map[byte]string{'P': "Put", 'O': "OpenStream", 'C': "WriteCompressed", 'X': "Close"}[kind], err))
+		}
+		if strings.IndexByte("PCwc", kind) >= 0 && errors.Is(err, errSink) {
+			sticky = true
+		}
+		note(err)
 	}
 	opt := &pdf.WriterOptions{HumanReadable: p.human,
 		ID: [][]byte{[]byte("0123456789abcdef"), []byte("fedcba9876543210")}}
@@ -256,7 +273,7 @@ func runProg(w io.Writer, p wprog) (errs []error, readBack string, closeErr erro
 	}
 	out, err := pdf.NewWriter(w, p.v, opt)
 	if err != nil {
-		return []error{err}, "", nil
+		return []error{err}, "", nil, nil
 	}
 	if p.owns {
 		pdf.VerifCloseUnderlying(out)
@@ -290,7 +307,7 @@ func runProg(w io.Writer, p wprog) (errs []error, readBack string, closeErr erro
 		for len(body) > 0 {
 			n := min(len(body), max(s.chunk, 1))
 			_, err := ws.Write(body[:n])
-			note(err)
+			noteK('w', err)
 			body = body[n:]
 		}
 	}
@@ -298,7 +315,7 @@ func runProg(w io.Writer, p wprog) (errs []error, readBack string, closeErr erro
 		switch s.kind {
 		case 0, 1:
 			ref := out.Alloc()
-			note(out.Put(ref, pdf.Dict{"A": pdf.String(strings.Repeat("x", s.size))}))
+			noteK('P', out.Put(ref, pdf.Dict{"A": pdf.String(strings.Repeat("x", s.size))}))
 			plain = append(plain, ref)
 		case 2, 3:
 			ref := out.Alloc()
@@ -307,16 +324,16 @@ func runProg(w io.Writer, p wprog) (errs []error, readBack string, closeErr erro
 				fs = append(fs, pdf.FilterFlate{})
 			}
 			ws, err := out.OpenStream(ref, pdf.Dict{}, fs...)
-			note(err)
+			noteK('O', err)
 			if err != nil {
 				continue
 			}
 			writeBody(ws, s)
-			note(ws.Close())
+			noteK('c', ws.Close())
 			streams = append(streams, ref)
 		case 4:
 			r1, r2 := out.Alloc(), out.Alloc()
-			note(out.WriteCompressed([]pdf.Reference{r1, r2}, pdf.Integer(5), pdf.String(strings.Repeat("y", s.size))))
+			noteK('C', out.WriteCompressed([]pdf.Reference{r1, r2}, pdf.Integer(5), pdf.String(strings.Repeat("y", s.size))))
 			members = append(members, r1, r2)
 		case 5:
 			if ref, ok := pick(plain, s.seed); ok && seekable {
@@ -331,29 +348,29 @@ func runProg(w io.Writer, p wprog) (errs []error, readBack string, closeErr erro
 				continue
 			}
 			fref, pref := out.Alloc(), out.Alloc()
-			note(out.Put(fref, pdf.Array{pdf.Name("ASCIIHexDecode")}))
-			note(out.Put(pref, pdf.Array{nil}))
+			noteK('P', out.Put(fref, pdf.Array{pdf.Name("ASCIIHexDecode")}))
+			noteK('P', out.Put(pref, pdf.Array{nil}))
 			plain = append(plain, fref)
 			ref := out.Alloc()
 			ws, err := out.OpenStream(ref, pdf.Dict{"Filter": fref, "DecodeParms": pref})
-			note(err)
+			noteK('O', err)
 			if err != nil {
 				continue
 			}
 			_, err = ws.Write([]byte(strings.Repeat("48656c6c6f", 1+s.size%300) + ">"))
-			note(err)
-			note(ws.Close())
+			noteK('w', err)
+			noteK('c', ws.Close())
 			streams = append(streams, ref)
 		case 8:
 			ref, late := out.Alloc(), out.Alloc()
 			ws, err := out.OpenStream(ref, pdf.Dict{"Late": late})
-			note(err)
+			noteK('O', err)
 			if err != nil {
 				continue
 			}
-			note(out.Put(late, pdf.Dict{"PutWhileStreamOpen": pdf.Boolean(true)}))
+			noteK('P', out.Put(late, pdf.Dict{"PutWhileStreamOpen": pdf.Boolean(true)}))
 			writeBody(ws, s)
-			note(ws.Close())
+			noteK('c', ws.Close())
 			streams = append(streams, ref)
 			plain = append(plain, late)
 		case 9:
@@ -374,15 +391,15 @@ func runProg(w io.Writer, p wprog) (errs []error, readBack string, closeErr erro
 		}
 	}
 	pages := out.Alloc()
-	note(out.Put(pages, pdf.Dict{"Type": pdf.Name("Pages"), "Kids": pdf.Array{}, "Count": pdf.Integer(0)}))
+	noteK('P', out.Put(pages, pdf.Dict{"Type": pdf.Name("Pages"), "Kids": pdf.Array{}, "Count": pdf.Integer(0)}))
 	out.GetMeta().Catalog.Pages = pages
 	out.GetMeta().Info.Title = "t"
 	if m, ok := w.(interface{ markClose() }); ok {
 		m.markClose()
 	}
 	closeErr = out.Close()
-	note(closeErr)
-	return errs, rb.String(), closeErr
+	noteK('X', closeErr)
+	return errs, rb.String(), closeErr, strict
 }
 
 func genProg(R *rand.Rand, i int) wprog {
@@ -446,7 +463,7 @@ func evalSinkProgram(id string, p wprog, seekable, withModel bool) (int, int) {
 		return s, s
 	}
 	w, s := mk(0, false, true)
-	cleanErrs, cleanRB, _ := runProg(w, p)
+	cleanErrs, cleanRB, _, _ := runProg(w, p)
 	if len(cleanErrs) > 0 {
 		panic(fmt.Sprintf("sink program %v fails without a fault: %v", p, cleanErrs[0]))
 	}
@@ -478,7 +495,8 @@ func evalSinkProgram(id string, p wprog, seekable, withModel bool) (int, int) {
 			var errs []error
 			var rb string
 			var closeErr error
-			got := guarded(watchdog, func() (string, error) { errs, rb, closeErr = runProg(w, p); return "", nil })
+			var strictV []string
+			got := guarded(watchdog, func() (string, error) { errs, rb, closeErr, strictV = runProg(w, p); return "", nil })
 			if got.skipped {
 				return total, len(cleanBytes)
 			}
@@ -508,6 +526,13 @@ func evalSinkProgram(id string, p wprog, seekable, withModel bool) (int, int) {
 				cls, letter = "swallowed", 'n'
 			}
 			e.Count(s.fired, fmt.Sprintf("sink|%s|%d|%v", id, k, only), fmt.Sprintf("sink/%s/%s", what, cls))
+			if len(strictV) > 0 && !got.timeout && got.panicked == "" {
+				failCapped(fmt.Sprintf("sink:later-call-lacks-first-error:seekable=%v", seekable),
+					fmt.Sprintf("Writer program on a %s sink failing %s at sink call #%d/%d (%s): a Put / WriteCompressed / stream Write or Close returned the sink's error, but a later %s",
+						map[bool]string{true: "seekable", false: "non-seekable"}[seekable], fmName(only), k, total, calls[k-1], strictV[0]),
+					map[string]any{"program": p.String(), "seekable": seekable, "k": k, "fault": fmName(only),
+						"failing_sink_call": calls[k-1], "later_calls_without_the_error": strictV})
+			}
 			if what == "W" || what == "S" || what == "C" {
 				// the model's fault index counts Write, Seek and Close calls only
 				letters = append(letters, letter)
